@@ -166,6 +166,7 @@ type Session struct {
 
 	CommitN int // number of commit attempts (for disk marks)
 	History []SpecState // committed spec states, History[0] = fresh file
+	Reach map[int]string // commit number -> physical pages (with content hashes) the committed state depends on
 	resized bool // max size was changed on a reopen
 	extentLimit uint64 // C14: no write beyond this after a shrink (0 = unchecked)
 	LastCommit string // result of the last Commit
@@ -398,6 +399,7 @@ func (s *Session) OpenWith(opts txfile.Options, label string) string {
 		if len(s.History) == 0 {
 			s.History = append(s.History, s.specState(0))
 			s.Disk.Mark("created")
+			s.recordReach(0)
 		}
 		s.emitSnap()
 	} else {
@@ -825,6 +827,7 @@ func (s *Session) Commit() string {
 	if res == "ok" {
 		s.applyCommit()
 		s.History = append(s.History, s.specState(n))
+		s.recordReach(n)
 		after := s.F.VerifSnapshot()
 		if len(after.Mapping) < len(before.Mapping) && len(before.Mapping) > 0 {
 			s.mark("wal-shrunk")
@@ -945,4 +948,124 @@ func (s *Session) Reopen() string {
 	s.CloseFile()
 	s.mark("reopen")
 	return s.Open()
+}
+
+// PageHash is the content hash used in crash traces.
+func PageHash(b []byte) uint64 {
+	h := uint64(14695981039346656037)
+	for _, c := range b {
+		h ^= uint64(c)
+		h *= 1099511628211
+	}
+	return h % 1000000007 // keep numbers short; collisions only weaken the check
+}
+
+// recordReach stores the physical pages the just committed state depends on:
+// live pages through the overwrite mapping, free-list pages, mapping pages.
+func (s *Session) recordReach(n int) {
+	if s.Reach == nil {
+		s.Reach = map[int]string{}
+	}
+	fs := s.F.VerifSnapshot()
+	img := s.Disk.Contents()
+	ps := uint64(s.Cfg.PageSize)
+	phys := map[uint64]uint64{}
+	for _, e := range fs.Mapping {
+		phys[e[0]] = e[1]
+	}
+	pages := map[uint64]bool{}
+	for id, c := range s.Committed {
+		if c.ID == ^uint64(0) {
+			continue // never written: no defined content
+		}
+		if w, ok := phys[id]; ok {
+			pages[w] = true
+		} else {
+			pages[id] = true
+		}
+	}
+	for _, id := range RegionIDs(fs.FreelistPages) {
+		pages[id] = true
+	}
+	for _, id := range RegionIDs(fs.WalPages) {
+		pages[id] = true
+	}
+	ids := make([]uint64, 0, len(pages))
+	for id := range pages {
+		ids = append(ids, id)
+	}
+	sort.Slice(ids, func(i, j int) bool { return ids[i] < ids[j] })
+	var sb strings.Builder
+	for i, id := range ids {
+		if i > 0 {
+			sb.WriteByte(',')
+		}
+		var h uint64
+		if (id+1)*ps <= uint64(len(img)) {
+			h = PageHash(img[id*ps : (id+1)*ps])
+		} else {
+			h = PageHash(make([]byte, ps)) // beyond EOF reads as zeroes
+		}
+		fmt.Fprintf(&sb, "%d:%d", id, h)
+	}
+	if len(ids) == 0 {
+		sb.WriteString("-")
+	}
+	s.Reach[n] = sb.String()
+}
+
+// CrashTrace renders the vfs operation log and the reach sets for the Lean crash model.
+func (s *Session) CrashTrace() string {
+	var sb strings.Builder
+	log := s.Disk.LogCopy()
+	ps := int64(s.Cfg.PageSize)
+	fmt.Fprintf(&sb, "init %s\n", s.Reach[0])
+	ns := make([]int, 0, len(s.Reach))
+	for n := range s.Reach {
+		ns = append(ns, n)
+	}
+	sort.Ints(ns)
+	for _, n := range ns {
+		fmt.Fprintf(&sb, "state %d %s\n", n, s.Reach[n])
+	}
+	created := false
+	cur := 0
+	for _, op := range log {
+		switch op.Kind {
+		case simdisk.OpMark:
+			if op.Label == "created" {
+				created = true
+			}
+			if strings.HasPrefix(op.Label, "commit-start ") {
+				fmt.Sscanf(op.Label, "commit-start %d", &cur)
+			}
+		case simdisk.OpSync:
+			if created {
+				sb.WriteString("s\n")
+			}
+		case simdisk.OpTruncate:
+			if created {
+				fmt.Fprintf(&sb, "t %d\n", (op.Off+ps-1)/ps)
+			}
+		case simdisk.OpWrite:
+			if !created {
+				continue
+			}
+			if len(op.Data) == 84 && (op.Off == 0 || op.Off == ps) {
+				m := txfile.VerifDecodeMeta(op.Data)
+				fmt.Fprintf(&sb, "h %d %d %d\n", op.Off/ps, m.Txid, cur)
+				continue
+			}
+			for o := int64(0); o < int64(len(op.Data)); o += ps {
+				e := o + ps
+				if e > int64(len(op.Data)) {
+					e = int64(len(op.Data))
+				}
+				buf := make([]byte, ps)
+				copy(buf, op.Data[o:e])
+				fmt.Fprintf(&sb, "w %d %d\n", (op.Off+o)/ps, PageHash(buf))
+			}
+		}
+	}
+	return sb.String()
 }
